@@ -291,7 +291,7 @@ func (c02) Eval(c *Chooser, env *Env) *Outcome {
 		o.Sig = w.Hash() ^ r.K.TraceHash
 		return o
 	}
-	kind := c.Int("world.variantkind", 11) // 0,1: schedule+map order; 2: + other CPU count; 3: repeated execution; 4: repeated call on one Linter; 5: another GOMAXPROCS
+	kind := c.Int("world.variantkind", 12) // 0,1: schedule+map order; 2: + other CPU count; 3: repeated execution; 4: repeated call on one Linter; 5: another GOMAXPROCS
 	r0 := RunLint(w, nil, RunOpts{Canonical: true})
 	o.addRun(r0.K)
 	if v := runFailure("C02", r0.K); v != nil {
@@ -380,6 +380,24 @@ func (c02) Eval(c *Chooser, env *Env) *Outcome {
 				ro.PriorOutFail = 1 + c.Int("world.prioroutfailat", 300)
 				desc += fmt.Sprintf(" and whose output writer failed after %d bytes during that call", ro.PriorOutFail-1)
 			}
+		}
+	case 11:
+		// an embedding program (an editor integration) that hands each document to Lint in one buffer
+		// it reuses: before each file the buffer held, and another Linter linted, a text of the same
+		// length whose lines begin elsewhere. The reference is the same sequence of Lint calls without
+		// that earlier use of the buffer.
+		if w.API == APIFiles && w.Opts.Format == "" && w.Tools == nil {
+			wm := *w
+			wm.API = APIMem
+			r0 = RunLint(&wm, nil, RunOpts{Canonical: true})
+			o.addRun(r0.K)
+			if v := runFailure("C02", r0.K); v != nil || r0.Fatal != "" {
+				o.probe("canonical_run_failed:mem", 1)
+				return o
+			}
+			w2.API, w2.MemPrior = APIMem, true
+			desc += ", every file linted from memory (Lint) out of one reused buffer that held another text of the same length before"
+			o.probe("lint_from_a_reused_buffer", 1)
 		}
 	case 6:
 		// another moment: the wall clock of the run differs by some minutes / hours / days
